@@ -668,6 +668,7 @@ func (e *c11Env) runDownstream(c *hostileCase) string {
 		wait = 8 * time.Second
 	}
 	outcome := "silence"
+	var writtenAt time.Time
 	deadline := time.Now().Add(wait + 20*time.Second)
 	for time.Now().Before(deadline) {
 		v, err := conn.Read(wait)
@@ -683,6 +684,15 @@ func (e *c11Env) runDownstream(c *hostileCase) string {
 			select {
 			case <-werr:
 				werr <- nil
+				// everything has been written: the proxy may still be working on it (a loaded machine needs seconds for tens of
+				// megabytes), so the input gets a grace of 1 s per MiB after the write before its silence counts
+				if writtenAt.IsZero() {
+					writtenAt = time.Now()
+				}
+				if time.Since(writtenAt) < time.Duration(len(c.Data)>>20)*time.Second {
+					deadline = time.Now().Add(wait + 20*time.Second)
+					continue
+				}
 				outcome = "silence"
 				goto done
 			default:
